@@ -69,7 +69,7 @@ type Run struct {
 	extras      map[string]any
 	inconcl     []string
 	start       time.Time
-	violCount   int64
+	violCount   atomic.Int64 // (atomic.Int64 is 8-byte aligned on 32-bit targets too)
 }
 
 // NewRun creates a run.
@@ -233,7 +233,7 @@ func (r *Run) addViolation(v Violation) {
 		}
 		return
 	}
-	atomic.AddInt64(&r.violCount, 1)
+	r.violCount.Add(1)
 	if len(r.violations) >= 25 {
 		return
 	}
@@ -252,7 +252,7 @@ func (r *Run) addViolation(v Violation) {
 }
 
 // Violations returns the number of (non-known) violations so far.
-func (r *Run) Violations() int { return int(atomic.LoadInt64(&r.violCount)) }
+func (r *Run) Violations() int { return int(r.violCount.Load()) }
 
 func (r *Run) merge(w *W) {
 	r.mu.Lock()
@@ -286,7 +286,8 @@ func (r *Run) Each(monitor string, n int, body func(w *W, i int)) {
 		r.runCase(monitor, r.ReplayIndex, body, 4)
 		return
 	}
-	var next int64 = -1
+	var next atomic.Int64
+	next.Store(-1)
 	var wg sync.WaitGroup
 	workers := r.Workers
 	if workers > n {
@@ -301,7 +302,7 @@ func (r *Run) Each(monitor string, n int, body func(w *W, i int)) {
 		go func() {
 			defer wg.Done()
 			for {
-				i := int(atomic.AddInt64(&next, 1))
+				i := int(next.Add(1))
 				if i >= n {
 					return
 				}
@@ -444,7 +445,7 @@ func (r *Run) Finish(outPath string) int {
 		Property: r.Prop, Tier: r.Tier, Seed: r.Seed, Config: r.Config, Tags: r.Tags,
 		Evaluations: r.evals, Distinct: int64(len(r.distinct)), DistinctDropped: r.dropped,
 		Classes: r.classes, PerMonitor: r.perMonitor, Required: r.required,
-		Samples: r.samples, Violations: int(r.violCount), ViolationList: r.violations,
+		Samples: r.samples, Violations: int(r.violCount.Load()), ViolationList: r.violations,
 		Inconclusive: r.inconcl, Notes: r.notes, Extras: r.extras,
 		WallS: time.Since(r.start).Seconds(),
 	}
